@@ -163,6 +163,10 @@ def grd9(P, R, L):
         bad = [n for n in names if n.endswith("::lock_exclusive") or n.endswith("::lock_shared") or n.endswith("::try_lock_shared")]
         R.check("GRD-9", "%s|lock-kind" % im, good and not bad, K.where(b),
                 "uses try_lock_exclusive only", "fs2 calls: %s" % names)
+        unl = P.ext_calls_reachable(im, lambda c: any(x in (c.name or "") for x in ("remove_file", "remove_dir", "::rename", "fs::unlink")))
+        R.check("GRD-9", "%s|never-unlinks-the-lock-file" % im, not unl, K.where(b),
+                "lock_file never removes or renames the lock file (flock is tied to the inode: unlinking it after a refused attempt lets the next attempt lock a fresh inode)",
+                "; ".join("%s at %s" % (c.name, c.where()) for c in unl))
         for c in calls:
             if c.body.path != im or not c.name.endswith("::try_lock_exclusive"):
                 continue
